@@ -99,6 +99,7 @@ fn op_dispatch(op: &str, a: &[&str]) -> String {
         "c09" => crate::engines::c09::op(&unhex(a[0]), a.get(1).map(|s| *s == "full").unwrap_or(false)),
         "c12" => crate::engines::c12::op(&unhex(a[0]), a.get(1).map(|s| *s == "trees").unwrap_or(false)),
         "c13" => crate::engines::c13::op(&unhex(a[0])),
+        "c03" => crate::engines::c03::op(&unhex(a[0])),
         "c09mode" => {
             let e = crate::engines::c09::mode_from_str_check();
             if e.is_empty() { "{\"ok\":1}".to_string() } else { format!("{{\"fail\":[[{},{},{}]]}}", json_str(&e[0].0), json_str(&e[0].1), json_str(&e[0].2)) }
